@@ -1,4 +1,5 @@
 import Avfs.Lemmas.FileOps
+import Avfs.Lemmas.FileSpec
 /-
   C02 — open-file I/O behaves as os.File.  Subject: Avfs.FS.fileStep (model of memfs_file.go) and openFile.
   Tied to /repo by `corr memfs-files` (impl ≟ model incl. heap dumps) and to os.File by `corr kernel-files`.
@@ -130,5 +131,29 @@ theorem C02_readdir_batches (s : Store) (v : View) (h : Handle) (i : Ino) (m : M
     | succ fuel ih => intro h; simp only [drainNames, drainNamesL, ih]; rfl
   rw [hd]
   exact drainNamesL_fresh s v h i m ch n hn hnd hg hfresh hn0
+
+/-! ### whole histories against the POSIX-style reference (Avfs/FS/FileSpec.lean) -/
+
+/-- the list surgery of the model's write is the pointwise reference: byte i of the result is the written byte inside
+    the written range, the old byte below the old length, 0 inside the gap; the length is the maximum -/
+theorem C02_write_pointwise (f : Bytes) (off : Nat) (b : Bytes) (hb : b ≠ []) (i : Nat) :
+    (writeData f off b)[i]? = writtenByte f off b i ∧ (writeData f off b).length = max f.length (off + b.length) := by
+  rw [writeData_eq_refPwrite]
+  exact ⟨refPwrite_getElem? f off b hb i, refPwrite_length f off b hb⟩
+
+/-- every history of read / pread / write / pwrite / lseek / ftruncate issued on any number of handles of one regular
+    file, of any length: the model returns the results of the reference, ends with its content and its offsets -/
+theorem C02_history_refines (s : Store) (v : View) (i : Ino) (f : Bytes) (hs : List Handle) (ds : List FDesc)
+    (ops : List (Nat × IOp)) (hlen : hs.length = ds.length)
+    (hr : ∀ (k : Nat) (h : Handle) (d : FDesc), hs[k]? = some h → ds[k]? = some d → h.repr i d) (hf : s.fileData i = some f) :
+    (modelRun s v hs ops).2.2 = (refRun f ds ops).2.2 ∧
+    (modelRun s v hs ops).1.fileData i = some (refRun f ds ops).1 ∧
+    (modelRun s v hs ops).2.1.length = (refRun f ds ops).2.1.length ∧
+    (∀ (k : Nat) (h : Handle) (d : FDesc), (modelRun s v hs ops).2.1[k]? = some h → (refRun f ds ops).2.1[k]? = some d → h.repr i d) :=
+  history_refines s v i f hs ds ops hlen hr hf
+
+-- non-vacuity (test, by evaluation): two descriptions of one file, an append lands at the end reached by the other
+#guard (refRun [1, 2, 3] [⟨0, true, true, false⟩, ⟨0, false, true, true⟩]
+    [(0, .lseek 5 0), (0, .write [9]), (1, .write [7]), (0, .pread 8 0)]).1 = [1, 2, 3, 0, 0, 9, 7]
 
 end Avfs.FS
